@@ -103,6 +103,65 @@ func VerifC01Insider(gt int) {
 	}
 }
 
+// VerifC01InsiderRetry: the same forged entry (same bytes, same CID) opened a second time -- the message
+// store re-queues entries that failed to open and replays them, ListEvents re-opens every entry -- is
+// still never delivered as the honest device's with content the device did not sign. mid=1: an honest
+// envelope of the same device is opened in between (what triggers the store's retry).
+func VerifC01InsiderRetry(gt int, mid int) {
+	ctx := verif_background()
+	snd := verifNewStore("snd", 2)
+	rcv := verifNewStore("rcv", 2)
+	g := verifGroup(snd, rcv, gt)
+	gpk, err := g.GetPubKey()
+	verif_assume(err == nil)
+	sndMD, rcvMD := verifLink(ctx, snd, rcv, g)
+	devRaw, _ := sndMD.Device().Raw()
+
+	p1 := verif_anyBytesNonNil("p1")
+	p2 := verif_anyBytesNonNil("p2")
+	pay1, _ := proto.Marshal(&protocoltypes.EncryptedMessage{Plaintext: p1})
+	pay2, _ := proto.Marshal(&protocoltypes.EncryptedMessage{Plaintext: p2})
+	_, err = snd.SealEnvelope(ctx, g, pay1) // counter 1
+	verif_assume(err == nil)
+	env2, err := snd.SealEnvelope(ctx, g, pay2) // counter 2
+	verif_assume(err == nil)
+	verif_honestKey(sndMD.device)
+
+	data := verif_anyBytesNonNil("adversarial-envelope")
+	c := verif_anyCid("cid")
+	e, h, err := rcv.OpenEnvelopeHeaders(data, g)
+	if err != nil {
+		return
+	}
+	_, err1 := rcv.OpenEnvelopePayload(ctx, e, h, gpk, rcvMD.Device(), c)
+	if mid == 1 {
+		e2, h2, err := rcv.OpenEnvelopeHeaders(env2, g)
+		verif_assume(err == nil)
+		m2, err := rcv.OpenEnvelopePayload(ctx, e2, h2, gpk, rcvMD.Device(), verif_anyCid("cid2"))
+		if err == nil {
+			verif_assert(verif_bytesEq(m2.Plaintext, p2), "C01.retry: the honest message in between opens to its payload")
+		}
+	}
+	// second open of the same entry
+	e, h, err = rcv.OpenEnvelopeHeaders(data, g)
+	if err != nil {
+		return
+	}
+	msg, err := rcv.OpenEnvelopePayload(ctx, e, h, gpk, rcvMD.Device(), c)
+	if err != nil {
+		return
+	}
+	verif_reach("C01.retry.accepted")
+	if err1 != nil {
+		verif_reach("C01.retry.accepted-after-reject")
+	}
+	if verif_bytesEq(h.DevicePk, devRaw) {
+		is1 := verif_bytesEq(msg.Plaintext, p1)
+		is2 := verif_bytesEq(msg.Plaintext, p2)
+		verif_assert(is1 || is2, "C01.A1r: content delivered on a re-open as the device's is one the device signed")
+	}
+}
+
 // VerifC01Outsider: without the group secret / message keys (INT-CTXT for both), whatever is accepted is
 // bit-for-bit an honest envelope: every flip and every field substitution is rejected.
 func VerifC01Outsider(gt int) {
